@@ -1,5 +1,5 @@
 (* POOL DISCIPLINE => EXCLUSIVE OWNERSHIP (property C04), and the correctness of the trace
-   checker Model/PoolTrace.v against Spec/PoolSpec.v.
+   checker Model/PoolTrace.v against Spec/PoolTraceSpec.v.
 
      pool_discipline_exclusive   a disciplined trace (the pool hands out what it contains or a new
                                  object; every Put is matched by an open Get of that object by
@@ -14,7 +14,7 @@
      run_pooltrace_accepts       an accepted harness trace is disciplined and exclusive after
                                  every prefix *)
 From Coq Require Import ZArith List Bool Lia Permutation.
-From Verif Require Import Base.Wrap Base.Wire Spec.PoolSpec Model.PoolTrace.
+From Verif Require Import Base.Wrap Base.Wire Spec.PoolTraceSpec Model.PoolTrace.
 Import ListNotations.
 Local Open Scope Z_scope.
 
